@@ -104,14 +104,27 @@ func (r *responseWriter) Write(b []byte) (int, error) {
 	return r.writer.Write(b)
 }
 
+// Flush sends the buffered part of the response; the response stays open.
 func (r *responseWriter) Flush() {
+	if nil == r.writer {
+		// already finished
+		return
+	}
 	if !r.wroteHeader {
 		r.WriteHeader(http.StatusOK)
 	}
-	_ = r.Close()
+	_ = r.writer.Flush()
 }
 
+// Close finishes the response: terminates a chunked body, flushes and releases the buffer.
+// Calling it again is a no-op.
 func (r *responseWriter) Close() (err error) {
+	if nil == r.writer {
+		return nil
+	}
+	if !r.wroteHeader {
+		r.WriteHeader(http.StatusOK)
+	}
 
 	if nil != r.chunkWriter {
 		err = r.chunkWriter.Close()
